@@ -52,7 +52,7 @@ func (c17) Runs(tier string) int {
 	if tier == "thorough" {
 		return 200000
 	}
-	return 4000
+	return 10000
 }
 func (c17) RequiredProbes(string) []string {
 	return []string{"overlap", "probe_authenticated", "probe_rejected"}
